@@ -34,7 +34,8 @@ def _env(**extra):
     env.update(
         PYTHONHASHSEED="0",
         PYTHONDONTWRITEBYTECODE="1",
-        PYTHONPATH=ROOT,
+        # VF_REPO: analyse another checkout of the repository (seeded-change runs) instead of /repo
+        PYTHONPATH=(os.environ["VF_REPO"] + os.pathsep + ROOT) if os.environ.get("VF_REPO") else ROOT,
         HOME="/nonexistent-home-vf",  # never touch the real ~/.cincokey
     )
     for k in ("VF_MODE", "VF_EXCLUDE", "VF_ONLY", "VF_REPLAY"):
@@ -150,6 +151,7 @@ def process_obligation(py, prop, module, ob, tier, findings, log):
                                                   "queries", "solver_s", "cpu_s", "job_wall_s", "error")})
     rec["paths"] = sum(int(j.get("paths") or 0) for j in [main] + list(twins.values()) + list(regions.values()))
     rec["confirmed_paths"] = int(main.get("confirmed_paths") or 0)
+    rec["cpu_s"] = main.get("cpu_s")
     rec["queries"] = sum(int(j.get("queries") or 0) for j in [main] + list(twins.values()) + list(regions.values()))
     rec["solver_s"] = round(sum(float(j.get("solver_s") or 0) for j in [main] + list(twins.values()) + list(regions.values())), 3)
     for k in ("smt", "extra"):
@@ -402,6 +404,9 @@ def main(argv=None):
     for r in recs:
         for line in r.get("lines", []):
             print(line)
+    for r in recs:
+        if r["verdict"] == "discharged" and r.get("cpu_s") and r.get("budget_s") and r["cpu_s"] > 0.5 * r["budget_s"]:
+            print("TIGHT: obligation=%s used %.0f of %.0f CPU-s" % (r["name"], r["cpu_s"], r["budget_s"]))
     for r in partial:
         print("NOT-EXHAUSTIVE: obligation=%s budget ended after %s confirmed paths (no counter-example)" % (
             r["name"], r.get("confirmed_paths")))
@@ -432,7 +437,7 @@ def write_evidence(prop, tier, seed, recs, wall, nviol, full=True):
     ob_rows = [
         {"name": r["name"], "engine": r.get("engine"), "verdict": r["verdict"], "bounds": r.get("bounds"),
          "paths": r.get("paths"), "confirmed_paths": r.get("confirmed_paths"), "queries": r.get("queries"),
-         "solver_s": r.get("solver_s"), "budget_s": r.get("budget_s"), "known_regions": r.get("known_regions"),
+         "solver_s": r.get("solver_s"), "budget_s": r.get("budget_s"), "cpu_s": r.get("cpu_s"), "known_regions": r.get("known_regions"),
          "functions_encoded": r.get("encodes"), "smt": r.get("smt"), "why": r.get("why")}
         for r in recs
     ]
